@@ -1224,6 +1224,31 @@ public:
         return true;
     }
 
+    bool VisitEnumDecl(EnumDecl* d)
+    {
+        if (!d->isThisDeclarationADefinition()) { return true; }
+        if (!ser.inRoot(d->getLocation())) { return true; }
+        json::Object o;
+        o["t"]      = "enum";
+        o["q"]      = ser.qname(d);
+        o["n"]      = d->getNameAsString();
+        o["scoped"] = d->isScoped();
+        o["file"]   = ser.relFile(d->getLocation());
+        o["line"]   = ser.lineOf(d->getLocation());
+        json::Array es;
+        for (auto const* e : d->enumerators()) {
+            json::Object eo;
+            eo["n"] = e->getNameAsString();
+            llvm::SmallString<32> v;
+            e->getInitVal().toString(v, 10);
+            eo["v"] = v.str().str();
+            es.push_back(std::move(eo));
+        }
+        o["enumerators"] = std::move(es);
+        emit(std::move(o));
+        return true;
+    }
+
     bool VisitTypeAliasDecl(TypeAliasDecl* d)
     {
         if (!ser.inRoot(d->getLocation())) { return true; }
